@@ -12,7 +12,7 @@ whose body is a random tree of
   * memref.subview (offsets from induction variables / constants, sizes static, from affine.min, from memref.dim, from
     local constants), memref.alloc (static, or sized by memref.dim / affine.min / induction variables / constants),
     memref.copy subview -> alloc, markers using the buffers;
-  * scf.if on a comparison of index values.
+  * scf.if on a comparison of index values; snax.cluster_sync_op (the stage separator of pipelined loops).
 
 Everything is drawn from the `random.Random` instance that is passed in; there is no other source of randomness.
 
@@ -358,6 +358,11 @@ class _G:
             return ls + self.marker(scope, ind)
         if k < 0.96 and depth >= 1:
             return self.cond(scope, ind, depth)
+        if k < 0.98:
+            # stage separator of pipelined loops: a side-effecting op without operands
+            self.features.add("barrier")
+            self.skel.append("B")
+            return [f'{ind}"snax.cluster_sync_op"() : () -> ()']
         return self.marker(scope, ind)
 
     def items(self, scope, ind, depth, n, allow_loop=True):
